@@ -344,6 +344,29 @@ static void seqObs(Obs &o, fileseq::FileSequence &s, const vector<long> &qf, con
     o.add("ix", hexList(ix));
 }
 
+// sequences constructed during static initialisation (this translation unit is linked FIRST, so
+// that happens before the statics of the library's own translation units are set up): the library
+// may not depend on the order in which translation units are initialised
+static fileseq::FileSequence kGlobals[] = {
+    fileseq::FileSequence("/proj/shot/beauty.1-10#.exr"),
+    fileseq::FileSequence("/proj/shot/beauty.0101.exr"),
+    fileseq::FileSequence("rel/v2_take.5-9@@.tif"),
+};
+
+// x.global <k> <qf> <qi>
+static string opXGlobal(const vector<string> &f) {
+    size_t k = (size_t)std::atoi(f[1].c_str());
+    vector<long> qf = ints(f[2]), qi = ints(f[3]);
+    Obs o;
+    if (k >= sizeof(kGlobals) / sizeof(kGlobals[0]) || !kGlobals[k].isValid()) {
+        o.add("valid", "0");
+        return o.str();
+    }
+    o.add("valid", "1");
+    seqObs(o, kGlobals[k], qf, qi);
+    return o.str();
+}
+
 static string opXSeq(const vector<string> &f) {
     string txt = unhx(f[2]);
     vector<long> qf = ints(f[3]), qi = ints(f[4]);
@@ -555,6 +578,7 @@ static string runOp(const string &line) {
         if (f[0] == "x.pad" && f.size() == 3) return opXPad(f);
         if (f[0] == "x.padsize" && f.size() == 3) return opXPadSize(f);
         if (f[0] == "x.seq" && f.size() >= 5) return opXSeq(f);
+        if (f[0] == "x.global" && f.size() == 4) return opXGlobal(f);
         if (f[0] == "x.scan" && (f.size() == 4 || f.size() == 5)) return opXScan(f);
         if (f[0] == "x.find" && (f.size() == 4 || f.size() == 5)) return opXFind(f);
     } catch (const std::exception &e) {
